@@ -237,13 +237,48 @@ def mk_inmem(graph, latlon=False, linked=None, name="m"):
     return InMemMap(name, graph=graph_dict(graph), use_latlon=latlon, use_rtree=False, linked_edges=le)
 
 
-def mk_sqlite(graph, dirname, latlon=False, name="m"):
+def mk_sqlite(graph, dirname, latlon=False, name="m", plan=None):
+    """SqliteMap holding the model graph.  Without a plan: bulk add_nodes + add_edges.  With a plan (gen.load_plan): the
+    map is built call by call with the per-call flags - ["node", label, no_index], ["node_again", label, other_loc]
+    (add_node of a known label with ignore_doubles=True: documented to be ignored), ["edge", a, b, no_index],
+    ["reindex_nodes"], ["reindex_edges"], ["commit"] - and the documented obligation of the deferred modes (re-index what
+    was added with no_index and never indexed since) is met at the end, exactly for what is still unindexed."""
     load_repo()
     from leuvenmapmatching.map.sqlite import SqliteMap
     with quiet():
         sm = SqliteMap(name, use_latlon=latlon, dir=dirname)
-        sm.add_nodes([(lab, (loc[0], loc[1])) for lab, loc, _ in graph])
-        sm.add_edges(graph_edges(graph))
+        if plan is None:
+            sm.add_nodes([(lab, (loc[0], loc[1])) for lab, loc, _ in graph])
+            sm.add_edges(graph_edges(graph))
+            return sm
+        loc = {n[0]: (n[1][0], n[1][1]) for n in graph}
+        un_nodes, added, indexed = set(), set(), set()
+        for op in plan:
+            k = op[0]
+            if k == "node":
+                sm.add_node(op[1], loc[op[1]], no_index=bool(op[2]), no_commit=bool(op[3]))
+                if op[2]:
+                    un_nodes.add(op[1])
+            elif k == "node_again":
+                sm.add_node(op[1], (op[2][0], op[2][1]), ignore_doubles=True)
+            elif k == "edge":
+                sm.add_edge(op[1], op[2], no_index=bool(op[3]), no_commit=bool(op[4]))
+                added.add((op[1], op[2]))
+                if not op[3]:
+                    indexed.add((op[1], op[2]))  # also repairs an edge that was first added unindexed
+            elif k == "reindex_nodes":
+                sm.reindex_nodes()
+                un_nodes.clear()
+            elif k == "reindex_edges":
+                sm.reindex_edges()
+                indexed |= added
+            elif k == "commit":
+                sm.db.commit()
+        if un_nodes:
+            sm.reindex_nodes()
+        if added - indexed:
+            sm.reindex_edges()
+        sm.db.commit()
     return sm
 
 
